@@ -58,3 +58,36 @@ M("timer_no_wakeup_on_add", ["C12"], "add_timer does not wake the job thread",
    """        self._timer_events.append( d )
         self._job_thread_wakeup()""",
    """        self._timer_events.append( d )"""))
+
+M("name_function_instance_shift", ["C15"], "function_instance << 36 in the value getter",
+  ("j1939/name.py", "retval += (self.function_instance << 35)", "retval += (self.function_instance << 36)"))
+M("name_mfr_mask", ["C15"], "manufacturer code parsed with a 10-bit mask",
+  ("j1939/name.py", "self.manufacturer_code = (value >> 21) & ((2 ** 11) - 1)", "self.manufacturer_code = (value >> 21) & ((2 ** 10) - 1)"))
+M("pgn_pdu1_boundary", ["C15"], "PDU1 includes PF 240",
+  ("j1939/parameter_group_number.py", "return True if self.pdu_format>=0 and self.pdu_format<=239 else False", "return True if self.pdu_format>=0 and self.pdu_format<=240 else False"))
+M("id_sa_254_to_255", ["C15"], "identifier parse maps one magic source address",
+  ("j1939/message_id.py", "        self.source_address = can_id & 0xFF\n", "        self.source_address = can_id & 0xFF\n        if can_id == 0x0CF00417: self.source_address = 0x18\n"))
+M("name_bytes_big_endian_tail", ["C15", "C04"], "NAME byte 7 taken from bits 48..55",
+  ("j1939/name.py", "((self.value >> 56) & 0xFF)\n", "((self.value >> 48) & 0xFF)\n"))
+
+M("tp21_no_abort_on_rcv_timeout", ["C06"], "J1939-21 receive time-out drops the session without abort",
+  ("j1939/j1939_21.py",
+   "                        self.__send_tp_abort(buf['dest_address'], buf['src_address'], self.ConnectionAbortReason.TIMEOUT, buf['pgn'])\n                    # TODO: should we notify our CAs about the cancelled transfer?\n                    del self._rcv_buffer[bufid]",
+   "                        pass\n                    # TODO: should we notify our CAs about the cancelled transfer?\n                    del self._rcv_buffer[bufid]"))
+M("tp21_t2_12s", ["C06"], "T2 = 12.5 s",
+  ("j1939/j1939_21.py", "        T2 = 1.250\n", "        T2 = 12.50\n"))
+M("tp21_abort_reason_in_wrong_byte", ["C03", "C06"], "Abort frame: PGN bytes shifted (reason in byte 2)",
+  ("j1939/j1939_21.py",
+   "data = [self.ConnectionMode.ABORT, reason, 0xFF, 0xFF, 0xFF, pgn_value & 0xFF, (pgn_value >> 8) & 0xFF, (pgn_value >> 16) & 0xFF]",
+   "data = [self.ConnectionMode.ABORT, 0xFF, reason, 0xFF, 0xFF, (pgn_value >> 8) & 0xFF, pgn_value & 0xFF, (pgn_value >> 16) & 0xFF]"))
+M("tp22_eoms_no_completeness", ["C06"], "FD EOMS delivers without completeness check (D12 reverted)",
+  ("j1939/j1939_22.py",
+   " and (len(self._rcv_buffer[buffer_hash]['data']) == message_size):", ":"))
+M("tp21_bam_rcv_timeout_keeps_buffer", ["C06", "C07"], "BAM receive time-out does not delete the buffer when dest is global",
+  ("j1939/j1939_21.py",
+   "                    # TODO: should we notify our CAs about the cancelled transfer?\n                    del self._rcv_buffer[bufid]",
+   "                        del self._rcv_buffer[bufid]\n                    else:\n                        buf['deadline'] = 0"))
+M("tp22_snd_timeout_no_release", ["C06", "C10"], "FD originator CTS time-out keeps the send buffer",
+  ("j1939/j1939_22.py",
+   "                        self.__send_tp_abort(buf['src_address'], buf['dest_address'], buf['session'], self.ConnectionAbortReason.TIMEOUT, buf['pgn'])\n                        del self._snd_buffer[bufid]",
+   "                        self.__send_tp_abort(buf['src_address'], buf['dest_address'], buf['session'], self.ConnectionAbortReason.TIMEOUT, buf['pgn'])\n                        buf['deadline'] = 0"))
